@@ -191,6 +191,44 @@ pub fn run(ctx: &Ctx) -> Report {
     });
     rep.merge(r);
 
+    // ---- long pipelines of mixed small and medium commands under coarse reads: the unparsed
+    //      remainder in the server's buffer takes thousands of different values
+    if !ctx.miri {
+        let n = ctx.n(300, 20_000);
+        let r = par_cases(ctx, "C01", "pipeline", n, |rng, i, rep| {
+            let ncmd = rng.range(200, 2000) as usize;
+            let lens: Vec<usize> = (0..ncmd)
+                .map(|_| match rng.below(20) {
+                    0 => rng.range(100, 5000) as usize,
+                    1 => rng.range(2040, 2060) as usize,
+                    2 => rng.range(4085, 4110) as usize,
+                    _ => rng.range(1, 40) as usize,
+                })
+                .collect();
+            let (cmds, scripts, sent) = build(ctx.seed ^ (i << 20), &lens, rng);
+            let mut case = Case::new(cmds, scripts);
+            case.log_reads = false;
+            let kind = i % 4;
+            case.sched = match kind {
+                0 => Sched::all(),
+                1 => Sched { cuts: vec![], cycle: vec![rng.range(1000, 9000) as usize] },
+                2 => Sched { cuts: vec![], cycle: (0..31).map(|_| rng.range(1, 9000) as usize).collect() },
+                _ => Sched { cuts: vec![], cycle: vec![4096, 4097, 1, 8192, 3] },
+            };
+            let obs = run_case(&case);
+            rep.evaluations += 1;
+            rep.counters.class(format!("pipeline of 200-2000 commands, sched kind {}", kind));
+            rep.counters.add("commands_sent", sent.len() as u64);
+            rep.counters.inc("long_pipelines");
+            let d = || J::obj().set("commands", sent.len()).set("sched", case.sched.describe()).set("outcome", obs.outcome.describe());
+            if i == 0 {
+                rep.sample(d());
+            }
+            check(&obs, &sent, rep, &d);
+        });
+        rep.merge(r);
+    }
+
     // ---- large payloads (multi-packet commands) ----
     if !ctx.miri {
         // 2*(2^24-1)+1 needs three fragments: the smallest case in which a middle fragment exists
